@@ -137,6 +137,14 @@ def cases(tier, seed):
     for m in rt.collision_models():
         if not any('"' in n or '.' in n for n in sh.names(m)):
             yield ('D', m)
+    # attribute references whose feature or attribute name needs quoting
+    F, R, M = sh.F, sh.R, sh.M
+    for fname, aname in (('a b', 'att'), ('Bb', 'unit price'), ('a b', 'unit price'), ('\u00f1u', 'att'), ('or', 'att'), ('Bb', 'or'), ('a-b', 'x y')):
+        ref = '%s.%s' % (fname, aname)
+        car = F('Fa', [R(0, 1, [F(fname, attrs=[(aname, sh.freeze(3))])]), R(0, 1, [F('Dc', attrs=[('att', sh.freeze(4))])])])
+        for t in (('GREATER', ref, 3), ('EQUALS', ('ADD', ref, 'Dc.att'), 7), ('AND', fname, ('LOWER', ('SUM', aname, fname), 10)),
+                  ('LOWER_EQUALS', 'Dc.att', ('MUL', ref, 2))):
+            yield ('K', M(car, [('c1', t)]))
     for t in families.deep_trees():
         if 'XOR' not in sh.tree_ops(t):
             yield ('K', cm.on_carrier([t]))
